@@ -496,6 +496,18 @@ impl Tcp {
         (rx, bidi)
     }
 
+    /// Whether the stream has a socket (it has none after a reset).
+    pub(crate) fn has_stream(&self, pair: SocketPair) -> bool {
+        self.sockets.contains_key(&pair)
+    }
+
+    /// The accepting side shares the connecting side's flow control.
+    pub(crate) fn set_flow_control(&mut self, pair: SocketPair, flow_control: BidiFlowControl) {
+        if let Some(sock) = self.sockets.get_mut(&pair) {
+            sock.flow_control = flow_control;
+        }
+    }
+
     pub(crate) fn flow_control(&self, pair: SocketPair) -> BidiFlowControl {
         self.sockets
             .get(&pair)
@@ -553,10 +565,11 @@ impl Tcp {
                 None => {}
             },
             Segment::Rst => {
-                if self.sockets.get(&SocketPair::new(dst, src)).is_some() {
-                    self.sockets
-                        .swap_remove(&SocketPair::new(dst, src))
-                        .unwrap();
+                if let Some(sock) = self.sockets.swap_remove(&SocketPair::new(dst, src)) {
+                    // A writer parked on a full flow-control window waits for
+                    // credits that will never come: wake it so that it sees
+                    // the reset.
+                    sock.flow_control.wake_writer();
                 }
             }
         };
